@@ -991,6 +991,23 @@ impl Monitors {
                 v.push(f("C06", "retry-cap", "rtx/retransmitted-beyond-the-cap", format!("sequence number {} was transmitted {} times, max_retransmissions is {}", s, t.count, w.cfg.max_retx)));
             }
         }
+        // ... and the connection gives up only after that many real transmissions of the segment it gives
+        // up on (a datagram the transport refused is not a transmission)
+        if let Some(Err(e)) = &rec.d_result {
+            if e.contains("max number of retransmissions") {
+                if let Some(fu) = first_unacked {
+                    let t = &self.tx[&fu];
+                    if t.count < w.cfg.max_retx + 1 && self.probe_seq != Some(fu) {
+                        v.push(f(
+                            "C06",
+                            "retry-cap",
+                            "rtx/gave-up-before-the-retry-cap",
+                            format!("the connection failed with '{e}' although sequence number {} had been put on the wire only {} time(s); max_retransmissions = {} allows {} transmissions", fu, t.count, w.cfg.max_retx, w.cfg.max_retx + 1),
+                        ));
+                    }
+                }
+            }
+        }
         // duplicate ACK bookkeeping from the packets the peer sent in this step
         let mut fast_due = false;
         for (h, plen, _) in &rec.peer_sent {
